@@ -214,8 +214,8 @@ impl Scenario for NutsScenario {
                 return out;
             }
         };
-        if au.near_tie {
-            out.probe("near_tie_skipped", 1);
+        if au.near_tie || au.weight_tie {
+            out.probe(if au.near_tie { "near_tie_skipped" } else { "weight_tie_skipped" }, 1);
             return out;
         }
         if au.reason == StopReason::Divergence {
@@ -333,7 +333,7 @@ impl Scenario for NutsScenario {
                     return out;
                 }
             };
-            if bu.near_tie {
+            if bu.near_tie || bu.weight_tie {
                 out.probe("near_tie_skipped", 1);
                 continue;
             }
